@@ -245,7 +245,13 @@ func cgGenAdversarial(r *KRng, sc *cgScenario, tier string) {
 	}
 	if longRamp {
 		// slow start all the way to the maximum window, before any loss
-		sc.Ops = append(sc.Ops, cgOp{K: "round", A: 1, B: int64(r.Pick(1, 2, 10, 50)), C: rttSample(), D: -1, E: int64(r.Range(15500, 19000))})
+		ramp := cgOp{K: "round", A: 1, B: int64(r.Pick(1, 2, 10, 50)), C: rttSample(), D: -1, E: int64(r.Range(15500, 19000))}
+		sc.Ops = append(sc.Ops, ramp)
+		if r.P(0.6) {
+			// ... then the round trips get longer (a queue builds up): slow start ends without a loss and without a reduction,
+			// and four more windows are acknowledged in congestion avoidance with the window at its maximum
+			sc.Ops = append(sc.Ops, cgOp{K: "round", A: 1, B: int64(r.Pick(10, 50)), C: ramp.C*16/10 + 20e6, D: -1, E: 40000})
+		}
 	}
 	for i := 0; i < n; i++ {
 		var op cgOp
@@ -419,6 +425,9 @@ func (h *cgH) observe(kind string) {
 		return
 	} else if cw >= maxCw {
 		h.res.Probe("cwnd-at-max")
+		if !h.s.InSlowStart() {
+			h.res.Probe("cwnd-at-max-in-congestion-avoidance")
+		}
 	}
 	if cw == 2*h.mds {
 		h.res.Probe("cwnd-at-min")
